@@ -470,13 +470,15 @@ pub fn split_pieces(s: &str, rng: &mut Rng) -> Vec<String> {
 
 /// Messages that are compile-time literals: `record.args().as_str()` is `Some` for them, which is what
 /// `log::info!("literal")` produces (a fast path an encoder might treat specially).
-pub const LITERALS: [&str; 6] = [
+pub const LITERALS: [&str; 8] = [
     "a literal message",
     "",
     "naïve café → 𝄞",
     "xxxxxxxxxxxxxxxxxxxxxxxxxxxxxxxxxxxxxxxxxxxxxxxxxxxxxxxxxxxxxxxxxxxxxxxxxxxxxxxxxxxxxxxxxxxxxxxxxxxxxxxxxxxxxxxxxxxxxxxxxxxxxxxxxxxxxxxxxxxxxxxxxxxxxxxxxxxxxxxxxxxxxxxxxxxxxxxxxxxxxxxxxxxxxxxxxxxxxxxxxxxxxxxxxxxxxxxxxxxxxxxxxxxxxxxxxxxxxxxxxxxxxxxxxxxxxxxxxxxxxxxxxxxxxxxxxxxxxxxxxxxxxxxxxxxxxxxxxxxxxxxxxxxxxxxxxxxxxxxxxxxxxxxxxxxxxxxxxxxx end",
     "{braces} (parens) \\ backslash",
     "line one\nline two",
+    "héllo wörld",
+    "日本語のメッセージです",
 ];
 
 /// Builds the `log::Record` for `ctx` and hands it to `f`.
@@ -502,6 +504,8 @@ pub fn with_record<T>(ctx: &RecCtx, pieces: &[String], f: impl FnOnce(&Record) -
             Some(3) => lit!("xxxxxxxxxxxxxxxxxxxxxxxxxxxxxxxxxxxxxxxxxxxxxxxxxxxxxxxxxxxxxxxxxxxxxxxxxxxxxxxxxxxxxxxxxxxxxxxxxxxxxxxxxxxxxxxxxxxxxxxxxxxxxxxxxxxxxxxxxxxxxxxxxxxxxxxxxxxxxxxxxxxxxxxxxxxxxxxxxxxxxxxxxxxxxxxxxxxxxxxxxxxxxxxxxxxxxxxxxxxxxxxxxxxxxxxxxxxxxxxxxxxxxxxxxxxxxxxxxxxxxxxxxxxxxxxxxxxxxxxxxxxxxxxxxxxxxxxxxxxxxxxxxxxxxxxxxxxxxxxxxxxxxxxxxxxxxxxxxxxx end"),
             Some(4) => lit!("{{braces}} (parens) \\ backslash"),
             Some(5) => lit!("line one\nline two"),
+            Some(6) => lit!("héllo wörld"),
+            Some(7) => lit!("日本語のメッセージです"),
             _ => {}
         }
     }
